@@ -193,8 +193,10 @@ int main(int argc, char** argv) {
 			FILE* out = fopen(argv[3], "a"); JV h = jparse(line);
 			Runner r(out, seed + nh); r.tag = "history " + std::to_string(nh);
 			for (auto& op : h.a) { if (op["op"].str() == "moveconstruct") r.moveconstruct((int)op["o"].integer(), (int)op["src"].integer()); else r.step(op); }
-			r.finish(); fclose(out); return "done";
+			r.finish(); fclose(out);
+			return __lsan_do_recoverable_leak_check() ? "LEAK" : "done";
 		}, 120, &detail);
+		if (v == "ok" && detail.find("LEAK") == 0) v = "leak";
 		if (v != "ok") {
 			FILE* out = fopen(argv[3], "a");
 			JW w; w.s("op", "crash").s("obs", v).s("during", g_marker).s("tag", "history " + std::to_string(nh)).s("detail", detail.substr(0, 1500)).i("armed", -1); w.emit(out); fclose(out);
